@@ -2,6 +2,7 @@ package main
 
 import (
 	"fmt"
+	"os"
 	"go/token"
 	"go/types"
 	"sort"
@@ -193,9 +194,15 @@ func (x *fx) call(i *ssa.Call, cc *ssa.CallCommon) {
 				regs = append(regs, x.regionsOf(e, env)...)
 			}()
 		}
+		if os.Getenv("VCGEN_DEBUG_KEEPS") != "" && x.pass == 2 {
+			fmt.Fprintf(os.Stderr, "keeps for %s: %d exprs -> %d regions\n", dname, len(keeps), len(regs))
+		}
 		defer func() {
 			for _, r := range regs {
 				oldV, newV := x.resolve(pre, r.mem), x.resolve(x.curMem, r.mem)
+				if os.Getenv("VCGEN_DEBUG_KEEPS") != "" && x.pass == 2 {
+					fmt.Fprintf(os.Stderr, "  keep %s: %s -> %s\n", r.mem, oldV, newV)
+				}
 				if oldV == newV {
 					continue
 				}
